@@ -39,7 +39,7 @@ theorem entry_points_spec (eps : List EntryPoint) :
         (eps.filterMap EntryPoint.cls?).idxOf a < (eps.filterMap EntryPoint.cls?).idxOf b) := by
   refine ⟨nodup_dedupAux _ _, ?_, ?_, pairwise_idxOf_dedupAux _ _⟩
   · intro c
-    simp [scanEntryPoints, mem_dedupAux, mem_filterMap_cls]
+    rw [scanEntryPoints, mem_dedupAux, mem_filterMap_cls]; simp
   · exact ((dedupAux_sublist _ _).map _).trans (filterMap_cls_sublist eps)
 
 /-- `get_dataset_convention` is `guess_convention` over `registry.conventions` with the
